@@ -16,7 +16,7 @@ using namespace hllm;
 
 const char* property_id() { return "C03"; }
 unsigned case_timeout_s() { return 1500; }
-uint64_t num_cases(bool thorough) { return thorough ? 9000 : 448; }
+uint64_t num_cases(bool thorough) { return thorough ? 6000 : 448; }
 void final_report() {}
 
 // ---------------------------------------------------------------- inputs with rare, high coupon values
